@@ -84,3 +84,30 @@ def check_blocked(V, D, final, max_blocks, what, **detail):
     else:
         req_eq(P, D, what + ': payload differs from the bytes written', **detail)
     return nfull
+
+
+class guard:
+    """run code under test: an exception the property does not allow becomes a violation (not a harness crash);
+    loop-budget exhaustion becomes a candidate non-termination"""
+    def __init__(self, what, key, replay, allow=(), hang_key=None):
+        self.what = what
+        self.key = key
+        self.replay = replay
+        self.allow = allow
+        self.hang_key = hang_key or key
+
+    def __enter__(self):
+        return self
+
+    def __exit__(self, et, e, tb):
+        if et is None:
+            return False
+        if issubclass(et, core.OutOfFuel):
+            rp = self.replay() if callable(self.replay) else self.replay
+            raise core.Violation('%s does not terminate (loop budget exhausted)' % self.what, {'key': self.hang_key, 'replay': rp})
+        if issubclass(et, core.ControlFlow) or (self.allow and issubclass(et, self.allow)):
+            return False
+        if issubclass(et, Exception):
+            rp = self.replay() if callable(self.replay) else self.replay
+            raise core.Violation('%s raised %s: %s' % (self.what, et.__name__, str(e)[:80]), {'key': self.key, 'replay': rp})
+        return False
